@@ -191,6 +191,33 @@ func init() {
 		tf := gateOrder(findFunc(per, "Persister", "triggerFlush"), []string{"flushTimer.Stop", "flushNow"},
 			[]string{"<-p.flush.writeDone", "p.batch", "p.flush"})
 		b.P("def triggerFlushOrder : List String := %s", leanStrList(tf))
+		// the wait for the running flush is a plain receive statement — not an arm of a select that
+		// could also be left through another case (context, timer): generations never overlap
+		plain, inSelect := false, false
+		var walk func(n ast.Node, sel bool)
+		walk = func(n ast.Node, sel bool) {
+			ast.Inspect(n, func(c ast.Node) bool {
+				switch v := c.(type) {
+				case *ast.SelectStmt:
+					if c != n {
+						walk(v.Body, true)
+						return false
+					}
+				case *ast.UnaryExpr:
+					if v.Op == token.ARROW && src2(v.X) == "p.flush.writeDone" {
+						if sel {
+							inSelect = true
+						} else {
+							plain = true
+						}
+					}
+				}
+				return true
+			})
+		}
+		walk(findFunc(per, "Persister", "triggerFlush").Body, false)
+		b.P("/-- `triggerFlush` waits for the previous generation unconditionally (`<-p.flush.writeDone` as a statement) -/")
+		b.P("def triggerFlushWaitsUnconditionally : Bool := %v", plain && !inSelect)
 	})
 }
 
